@@ -265,14 +265,20 @@ UNITS["U8"] = {
 
 # U9 = U6 (readers, validator contract, decompressor) + the mutating operations
 _MUTP = ["set_offset", "set_offset_next", "invalidate", "recompute_rr", "recompute_sections", "raw_mut", "parsed_packet_mut"]
+_MUTT = ["resize_rr", "set_raw_name", "delete"]
 _p9 = []
 for _p in UNITS["U6"]["parts"]:
     if _p[0] == "trait" and _p[2] == "DNSIterable":
-        _p = ("trait", _p[1], _p[2], list(_p[3]) + _MUTP + ["rdata_slice_mut"])
+        _p = ("trait", _p[1], _p[2], list(_p[3]) + _MUTP + ["rdata_slice_mut", "uncompress"])
     elif _p[0] == "trait" and _p[2] == "RdataIterable":
         _p = ("trait", _p[1], _p[2], list(_p[3]) + ["set_rr_ttl", "set_rr_ip"])
+    elif _p[0] == "trait" and _p[2] == "TypedIterable":
+        _p = ("trait", _p[1], _p[2], list(_p[3]) + _MUTT)
     elif _p[0] == "traitimpl" and _p[2].startswith("DNSIterable for "):
         _p = ("traitimpl", _p[1], _p[2], list(_p[3]) + _MUTP)
+    elif _p == ("impl", "compress.rs", "Compress", ["uncompress_with_previous_offset", "uncompress"]):
+        # verified in U6; taken by contract here (a trait default method may not call a function whose body uses an impl of that trait)
+        _p = ("impl", "compress.rs", "Compress", ["uncompress_with_previous_offset", "uncompress"], "external")
     elif _p[0] == "struct" and _p[2] == "RRRaw":
         _p9.append(_p)
         _p = ("struct", "rr_iterator.rs", "RRRawMut")
@@ -281,12 +287,12 @@ for _p in UNITS["U6"]["parts"]:
         _p9.append(("file", "spec/mutate.rs"))
     if _p[0] == "struct" and _p[2] == "ParsedPacket":
         pass
-_p9 += [("struct", "synth/gen.rs", "RR", ["pubfields"]), ("impl", "dns_sector.rs", "DNSSector", ["set_qdcount", "set_ancount", "set_nscount", "set_arcount"]),
+_p9 += [("impl", "compress.rs", "Compress", ["check_compressed_name"], "external"), ("struct", "synth/gen.rs", "RR", ["pubfields"]), ("impl", "dns_sector.rs", "DNSSector", ["set_qdcount", "set_ancount", "set_nscount", "set_arcount"]),
         ("impl", "parsed_packet.rs", "ParsedPacket", ["into_packet", "rrcount_inc", "rrcount_dec", "insertion_offset", "recompute", "insert_rr"])]
 # the packet-level functions must come before the traits that call them: order is irrelevant in Rust, so this is fine
 UNITS["U9"] = {
     "title": "mutating operations (C08, C09, C10, C11)",
     "flags": ["--no-lifetime"], "rlimit": 100,
-    "contracts": UNITS["U6"]["contracts"] + ["contracts/U3.contract:dns_sector.rs::DNSSector::set_(qdcount|ancount|nscount|arcount)$", "contracts/U9.contract", "contracts/U9t.contract"],
+    "contracts": UNITS["U6"]["contracts"] + ["contracts/U3.contract:dns_sector.rs::DNSSector::set_(qdcount|ancount|nscount|arcount)$", "contracts/U1.contract:compress.rs::Compress::check_compressed_name$", "contracts/U9.contract", "contracts/U9t.contract"],
     "parts": _p9,
 }
